@@ -438,10 +438,37 @@ func discover() []fnRec {
 		}
 		sent.note(sent.snap())
 		sent.ensure()
+		kept = relevanceOrder(kept)
 		discFuncs, discNotes = kept, notes
 		saveFuncFile()
 	})
 	return discFuncs
+}
+
+// relevanceOrder puts the functions that do not declare all four flags (the
+// ones the gate can refuse, which include the whole io library) first, so
+// that a run cut short by its budget has covered them; the order within each
+// group is the discovery order.
+func relevanceOrder(fs []fnRec) []fnRec {
+	idx := make([]int, len(fs))
+	for i := range idx {
+		idx[i] = i
+	}
+	sort.SliceStable(idx, func(a, b int) bool {
+		return fs[idx[a]].declared != allFlags && fs[idx[b]].declared == allFlags
+	})
+	pos := make([]int, len(fs))
+	for newI, oldI := range idx {
+		pos[oldI] = newI
+	}
+	out := make([]fnRec, len(fs))
+	for newI, oldI := range idx {
+		out[newI] = fs[oldI]
+		if out[newI].acc.kind == accCall {
+			out[newI].acc.idx = pos[out[newI].acc.idx]
+		}
+	}
+	return out
 }
 
 // ---- handing the list from the driver process to its workers
